@@ -539,3 +539,113 @@ def _settle_and_close(loop, kernel):
     info["executor_jobs"] = loop.executor_jobs
     loop.close()
     return info
+
+
+def run_overlapped(config, bundle, requests, worlds, stream, policy=None,
+                   max_steps=40000):
+    """Execute several requests *concurrently* against one schema object on
+    one simulated loop / pool.  Each request has its own context (req_id) and
+    its own recording instrumentation; all share the kernel and its log.
+    Returns (kernel, [Outcome per request])."""
+    mode = MODE_OF[config]
+    assert mode in ("asyncio", "pool")
+    kernel = Kernel(stream, policy=policy, max_steps=max_steps)
+    bundle.set_mode(mode)
+    outs = []
+    kws = []
+    loop = SimLoop(kernel) if mode == "asyncio" else None
+    for rid, (request, world) in enumerate(zip(requests, worlds)):
+        world.make_default = make_default_attr
+        out = Outcome(config)
+        out.kernel = kernel
+        ctx = ReqCtx(world, kernel, mode, loop=loop, req_id=rid)
+        out.ctx = ctx
+        outs.append(out)
+        kws.append(dict(
+            variables=request.get("variables"),
+            operation_name=request.get("operation_name"),
+            context=ctx,
+            instrumentation=Recorder(lambda: kernel, "R0", rid),
+        ))
+    try:
+        if mode == "asyncio":
+            rt = AsyncIORuntime(
+                loop=loop,
+                execute_blocking_functions_in_thread=(
+                    config == "asyncio-thread"),
+            )
+
+            async def one(i):
+                await loop.sleep(kernel.draw_latency("req-start"))
+                try:
+                    r = process_graphql_query(
+                        bundle.schema, requests[i]["text"], runtime=rt,
+                        **kws[i])
+                    outs[i].result = await r
+                    outs[i].status = "ok"
+                except Exception as err:  # noqa: B902
+                    outs[i].status = "raised"
+                    outs[i].exc = err
+
+            async def main():
+                await asyncio.gather(*[
+                    loop.create_task(one(i)) for i in range(len(requests))])
+
+            try:
+                loop.run_until_complete(main())
+            finally:
+                info = _settle_and_close(loop, kernel)
+                for o in outs:
+                    o.loop_info = info
+        else:
+            rt = ThreadPoolRuntime(max_workers=1)
+            rt._inner.shutdown(wait=False)
+            rt._inner = SimExecutor(
+                kernel, nworkers=(2, 4)[stream.below(2, "pool-size")])
+            saved = _tp.Future
+            _tp.Future = SimFuture
+            SimFuture.kernel = kernel
+            SimFuture.executor = rt._inner
+            try:
+                futs = []
+                for i in range(len(requests)):
+                    try:
+                        futs.append(process_graphql_query(
+                            bundle.schema, requests[i]["text"], runtime=rt,
+                            **kws[i]))
+                    except Exception as err:  # noqa: B902
+                        futs.append(None)
+                        outs[i].status = "raised"
+                        outs[i].exc = err
+                    # let some work happen between the two submissions
+                    for _ in range(kernel.stream.below(4, "between")):
+                        if not kernel.step():
+                            break
+                kernel.run_until(
+                    lambda: all(f is None or f.done() for f in futs))
+                kernel.drain()
+                if kernel.deadlock:
+                    raise Hang("bounded-pool deadlock")
+                for i, f in enumerate(futs):
+                    if f is None:
+                        continue
+                    try:
+                        outs[i].result = f.result(0)
+                        outs[i].status = "ok"
+                    except Exception as err:  # noqa: B902
+                        outs[i].status = "raised"
+                        outs[i].exc = err
+            finally:
+                _tp.Future = saved
+                SimFuture.kernel = None
+                SimFuture.executor = None
+    except Hang as err:
+        for o in outs:
+            if o.status is None:
+                o.status = "hang"
+                o.exc = err
+    except StepCap as err:
+        for o in outs:
+            o.status = "stepcap"
+            o.exc = err
+    return kernel, outs
